@@ -184,6 +184,14 @@ static void make_mutations(HdrCase& c, int level) {
     add("truncate", k, k - 1, n - k + 1, {}, true);            // header = lines 1..k-1
     if (level > 0 || k % 3 == 0) add("truncate_nonl", k, k, n - k, {}, false);   // lines 1..k, no final newline
     if (k < n && !thin) add("swap", k, k - 1, 2, { c.lines[k], L }, c.nl);
+    // the order of keys: the line is moved down by d lines (the lines in between move up); many of these
+    // orders are as valid as the writer's (the Interfile grammar fixes only some), the spec says which
+    for (int d : { 2, 3, 6 })
+      if (k + d <= n - 1 && !thin && (level > 0 || d != 3)) {
+        std::vector<std::string> fresh(c.lines.begin() + k, c.lines.begin() + k + d);
+        fresh.push_back(L);
+        add("move", k, k - 1, d + 1, fresh, c.nl);
+      }
     const auto as = L.find(":=");
     if (as == std::string::npos) continue;
     const std::string key = L.substr(0, as), val = trim(L.substr(as + 2));
@@ -243,6 +251,16 @@ static void make_mutations(HdrCase& c, int level) {
                            "%sms-mi version number := 1", "version of keys := STIR3.0", "TOF bin order := {0,1}", "applied corrections := {arc correction}",
                            "; a comment", "", "   ", "unknown key := 3", "!INTERFILE :=" })
     add("insert", n, n - 1, 0, { ins }, c.nl);
+  // valid headers with several data sets, keys in both orders (with and without per-data-set keys)
+  for (std::vector<std::string> blk : { std::vector<std::string>{ "number of image data types := 2", "number of time frames := 1", "image scaling factor[2] := 1", "data offset in bytes[2] := 0" },
+                                        std::vector<std::string>{ "number of time frames := 1", "number of image data types := 2", "image scaling factor[2] := 1", "data offset in bytes[2] := 0" },
+                                        std::vector<std::string>{ "number of image data types := 2", "number of time frames := 1" },
+                                        std::vector<std::string>{ "number of time frames := 1", "number of image data types := 2" },
+                                        std::vector<std::string>{ "number of image data types := 2", "number of time frames := 2", "data offset in bytes[4] := 0" },
+                                        std::vector<std::string>{ "number of time frames := 2", "number of image data types := 2", "data offset in bytes[4] := 0" },
+                                        std::vector<std::string>{ "number of time frames := 2", "data offset in bytes[2] := 0", "image scaling factor[2] := 1" },
+                                        std::vector<std::string>{ "data offset in bytes[1] := 0", "number of time frames := 1" } })
+    add("insert_block", n, n - 1, 0, blk, c.nl);
   add("append", n, n, 0, { "matrix size [1] := 2000000000", "junk after the end" }, c.nl);
 }
 
